@@ -110,7 +110,7 @@ func (b *builder) start() {
 	if b.config.Title != "" {
 		graphname = b.config.Title
 	}
-	fmt.Fprintln(b, `digraph "`+graphname+`" {`)
+	fmt.Fprintln(b, `digraph "`+escapeForDot(graphname)+`" {`)
 	fmt.Fprintln(b, `node [style=filled fillcolor="#f8f8f8"]`)
 }
 
@@ -132,7 +132,7 @@ func (b *builder) addLegend() {
 		fmt.Fprintf(b, ` URL="%s" target="_blank"`, b.config.LegendURL)
 	}
 	if b.config.Title != "" {
-		fmt.Fprintf(b, ` tooltip="%s"`, b.config.Title)
+		fmt.Fprintf(b, ` tooltip="%s"`, escapeForDot(b.config.Title))
 	}
 	fmt.Fprintf(b, "] }\n")
 }
@@ -247,7 +247,7 @@ func (b *builder) addNodelets(node *Node, nodeID int) bool {
 			continue
 		}
 		weight := b.config.FormatValue(w)
-		nodelets += fmt.Sprintf(`N%d_%d [label = "%s" id="N%d_%d" fontsize=8 shape=box3d tooltip="%s"]`+"\n", nodeID, i, t.Name, nodeID, i, weight)
+		nodelets += fmt.Sprintf(`N%d_%d [label = "%s" id="N%d_%d" fontsize=8 shape=box3d tooltip="%s"]`+"\n", nodeID, i, escapeTagForDot(t.Name), nodeID, i, weight)
 		nodelets += fmt.Sprintf(`N%d -> N%d_%d [label=" %s" weight=100 tooltip="%s" labeltooltip="%s"]`+"\n", nodeID, nodeID, i, weight, weight, weight)
 		if nts := lnts[t.Name]; nts != nil {
 			nodelets += b.numericNodelets(nts, maxNodelets, flatTags, fmt.Sprintf(`N%d_%d`, nodeID, i))
@@ -274,7 +274,7 @@ func (b *builder) numericNodelets(nts []*Tag, maxNumNodelets int, flatTags bool,
 		}
 		if w != 0 {
 			weight := b.config.FormatValue(w)
-			nodelets += fmt.Sprintf(`N%s_%d [label = "%s" id="N%s_%d" fontsize=8 shape=box3d tooltip="%s"]`+"\n", source, j, t.Name, source, j, weight)
+			nodelets += fmt.Sprintf(`N%s_%d [label = "%s" id="N%s_%d" fontsize=8 shape=box3d tooltip="%s"]`+"\n", source, j, escapeForDot(t.Name), source, j, weight)
 			nodelets += fmt.Sprintf(`%s -> N%s_%d [label=" %s" weight=100 tooltip="%s" labeltooltip="%s"%s]`+"\n", source, source, j, weight, weight, weight, attr)
 		}
 	}
@@ -484,6 +484,12 @@ func escapeAllForDot(in []string) []string {
 		out[i] = escapeForDot(in[i])
 	}
 	return out
+}
+
+// escapeTagForDot escapes a tag name for DOT. The lines of a tag name are
+// separated by a literal \n (see joinLabels), which is kept as is.
+func escapeTagForDot(name string) string {
+	return strings.Join(escapeAllForDot(strings.Split(name, `\n`)), `\n`)
 }
 
 // escapeForDot escapes double quotes and backslashes, and replaces Graphviz's
